@@ -809,8 +809,10 @@ def cases_stamp(rng, n):
         except Exception:  # noqa: BLE001
             continue
         be = st.bpm_events
+        from chartparse.sync import TimeSignatureEvent
+        ts_d = SyncTrack._parse_data_from_chart_lines(list(secs.get("SyncTrack", [])))[0]
         jobs = [("globalEventFromParsedData", TextEvent, tx_d, "value"), ("globalEventFromParsedData", SectionEvent, se_d, "value"),
-                ("globalEventFromParsedData", LyricEvent, ly_d, "value")]
+                ("globalEventFromParsedData", LyricEvent, ly_d, "value"), ("timeSignatureFromParsedData", TimeSignatureEvent, ts_d, "upper_numeral,lower_numeral")]
         for tag, body in R.sections:
             if tag not in ("Song", "SyncTrack", "Events"):
                 _, sp_d, te_d = InstrumentTrack._parse_data_from_chart_lines(list(body))
@@ -833,9 +835,11 @@ def cases_stamp(rng, n):
                     if not rec.ok:
                         break
                     table = list(rec.log)
-                    ctor = f"()(tick=,timestamp=,{field}=,_proximal_bpm_event_index=)"
+                    fields = field.split(",")
+                    ctor = "()(tick=,timestamp=," + "".join(f"{f_}=," for f_ in fields) + "_proximal_bpm_event_index=)"
                     if ev is not None:
-                        table.append(f"{ctor} 5 {ser(et)} {ser(ev.tick)} {ser(ev.timestamp)} {ser(getattr(ev, field))} {ser(ev._proximal_bpm_event_index)} R {ser(ev)}")
+                        table.append(f"{ctor} {4 + len(fields)} {ser(et)} {ser(ev.tick)} {ser(ev.timestamp)} " + " ".join(ser(getattr(ev, f_)) for f_ in fields)
+                                     + f" {ser(ev._proximal_bpm_event_index)} R {ser(ev)}")
                     out.append((request(name, [et, d, prev, be], table), real, name))
                 except Unserialisable:
                     break
@@ -858,6 +862,7 @@ GENERATORS = {
     "trackEventFromParsedData": cases_stamp,
     "globalEventFromParsedData": cases_stamp,
     "anchorFromParsedData": cases_stamp,
+    "timeSignatureFromParsedData": cases_stamp,
     "buildEventsFromData": cases_build_events,
     "instrumentParseData": cases_parse_data,
     "syncParseData": cases_parse_data,
